@@ -14,7 +14,7 @@ E3: real recordings (1-2 channels, RF + metadata) x methods x event histories de
 import os
 
 from .. import tlc
-from ..core import Machinery
+from ..core import Machinery, quiet_stderr
 from ..drivers import mirror_drv as drv
 
 ACTIONS = ["NDeliver", "NSkip", "NVanish", "NCrash", "Restart", "EndHandler", "MkDirs", "Cmp", "RmTmp", "CopyBegin", "CopyEnd",
@@ -287,6 +287,80 @@ def replay(ctx, path):
 
 
 # ---------------------------------------------------------------------------------------------------
+# beyond the list: the live recording moved to an archive while it goes on (DrfPipeline.tla)
+# ---------------------------------------------------------------------------------------------------
+PIPE_WITNESSES = [("W1", "W_NeverCrashMidMove"), ("W2", "W_NeverArchivedWhileRecording"), ("W3", "W_CopyNeverOverlapsWriter"),
+                  ("W4", "W_DirNeverRemoved")]
+
+
+def pipeline(ctx, digital_rf):
+    import copy
+
+    from .. import stage as stage_mod
+    from ..core import VERIF
+    from ..drivers import pipeline_drv
+
+    ctx.model_check("MCDrfPipeline", "MCDrfPipeline_main.cfg" if ctx.quick else "MCDrfPipeline_thorough.cfg", coverage=False, tag="pipe_main")
+    ctx.model_check("MCDrfPipeline", "MCDrfPipeline_normdir.cfg", coverage=False, tag="pipe_normdir")
+    ctx.model_check("MCDrfPipeline", "MCDrfPipeline_live.cfg", coverage=False, tag="pipe_live")
+    # observation O1: with the mirror removing emptied source subdirectories the writer can be disturbed
+    ctx.model_check("MCDrfPipeline", "MCDrfPipeline_O1.cfg", expect_violated=("WriterUndisturbed",), coverage=False, tag="pipe_O1")
+    ctx.model_check("MCDrfPipeline", "MCDrfPipeline_brokenfilter.cfg", expect_violated=("WriterUndisturbed",), coverage=False, tag="pipe_bf")
+    ctx.model_check("MCDrfPipeline", "MCDrfPipeline_brokenfilter2.cfg", expect_violated=("NoTmpNameArchived",), coverage=False, tag="pipe_bf2")
+    for c, inv in PIPE_WITNESSES:
+        ctx.model_check("MCDrfPipeline", "MCDrfPipeline_%s.cfg" % c, expect_violated=(inv,), coverage=False, tag="pipe_" + c)
+    try:
+        shim = stage_mod.build_shim(ctx.work)
+    except stage_mod.BuildError as e:
+        raise Machinery(str(e))
+    env = dict(stage=ctx.stage(), shim=shim, verif=VERIF, root=os.path.join(ctx.work, "fsrun"))
+    scen = []
+    with quiet_stderr():
+        for i in range(ctx.pick(12, 160)):
+            scen.append(pipeline_drv.pipeline_run(env, digital_rf, ctx.rng, ctx.seed * 433 + i, "pipe%d" % i, lose=[0.0, 0.1, 0.3][i % 3],
+                                                  exdev=bool(i % 2), crash=i % 4 >= 2, race=i % 3 == 0))
+    ctx.extra["pipeline"] = dict(
+        runs=len(scen), events=sum(len(s["events"]) for s in scen),
+        mirror_activations=sum(1 for s in scen for e in s["events"] if e["ev"] == "m"),
+        mirror_crashes=sum(1 for s in scen for e in s["events"] if e["ev"] == "c"),
+        archive_reader_passes=sum(1 for s in scen for e in s["events"] if e["ev"] == "r"),
+        observation_O1_reproduced=sum(s["o1"] for s in scen),
+        what="live recording under the interposer -> watchdog events (some lost) -> real event filter -> real DigitalRFMirror in "
+             "move mode (one or two file systems, killed once between two of its operations and restarted) -> DigitalRFReader on "
+             "the archive; both trees projected after every handler activation; TLC validates against DrfPipeline.tla")
+    if scen:
+        ctx.sample({"name": scen[0]["name"], "config": scen[0]["desc"], "events": scen[0]["events"][:8]})
+    vs = ctx.validate("DrfPipelineTrace", "DrfPipelineTrace.cfg", scen, label="live recording moved to an archive")
+    # binding self-check: an accepted run with one observation changed must be rejected by the matching clause
+    ok = [s for s, v in zip(scen, vs) if v["v"] == "ACCEPT" and any(e["ev"] == "m" and e["k"] == "moved" for e in s["events"])]
+    if ok:
+        cases = []
+        a = copy.deepcopy(ok[0])
+        e = [x for x in a["events"] if x["ev"] == "m" and x["k"] == "moved"][0]
+        e["dst"][e["j"] - 1][1] = "part"
+        cases.append((a, "C17-pipeline-ArchiveFinalComplete-final-archive-name-with-incomplete-content"))
+        b = copy.deepcopy(ok[0])
+        e = [x for x in b["events"] if x["ev"] == "m" and x["k"] == "moved"][0]
+        e["dst"][e["j"] - 1][1] = "none"
+        cases.append((b, "C17-pipeline-NoLoss-finalized-file-intact-nowhere"))
+        c = copy.deepcopy(ok[0])
+        e = [x for x in c["events"] if x["ev"] == "m" and x["tmp"]]
+        if e:
+            e[0]["stmp"][e[0]["j"] - 1] = 0
+            cases.append((c, "C15-pipeline-WriterUndisturbed-mirror-took-a-file-in-progress"))
+        for i, (s, _) in enumerate(cases):
+            s["name"] = "pipe-corrupted%d" % i
+        try:
+            cv, _ = tlc.validate_traces("DrfPipelineTrace", "DrfPipelineTrace.cfg", [x[0] for x in cases], ctx.work, shards=2, tag="pipe_selfcheck")
+        except tlc.TLCError as e:
+            raise Machinery(str(e))
+        for (s, clause), v in zip(cases, cv):
+            if v["v"] != "REJECT" or clause not in (v["why"] + v.get("first", [])):
+                raise Machinery("binding self-check (pipeline): a corrupted trace was not rejected with %s but %s" % (clause, v))
+        ctx.extra["pipeline"]["binding_selfcheck"] = [c for _, c in cases]
+
+
+# ---------------------------------------------------------------------------------------------------
 def run(ctx):
     q = ctx.quick
     # ---- E1 -------------------------------------------------------------------
@@ -303,6 +377,8 @@ def run(ctx):
     # ---- the implementation ---------------------------------------------------------
     ctx.stage()
     import digital_rf
+
+    pipeline(ctx, digital_rf)
 
     rng = ctx.rng
     work = os.path.join(ctx.work, "mir")
